@@ -5,6 +5,8 @@ import (
 	"fmt"
 	"math"
 	"sort"
+	"strconv"
+	"strings"
 	"testing"
 
 	geom "github.com/twpayne/go-geom"
@@ -23,12 +25,17 @@ type Case struct {
 	Layout int        `json:"layout"`
 	Via    string     `json:"via"` // flat | multipoint | linestring | polygon
 	Pts    [][2]int64 `json:"pts"`
+	// Extra selects the extra ordinates (Z, M): "" = distinct per input point
+	// (provenance observable), "const:k" = the small integer k for every point,
+	// "x" / "y" = a copy of the point's own x / y, "mix" = small integers derived
+	// from the index; the last three put values of the same range as x,y next to them.
+	Extra string `json:"extra,omitempty"`
 }
 
 var layouts = []geom.Layout{geom.XY, geom.XYZ, geom.XYM, geom.XYZM}
 
 func genPts(t *rapid.T) (string, [][2]int64) {
-	shape := rapid.SampledFrom([]string{"lattice", "uniform", "circle", "collinear", "dups", "lattice", "two-lines"}).Draw(t, "shape")
+	shape := rapid.SampledFrom([]string{"lattice", "uniform", "circle", "collinear", "dups", "lattice", "two-lines", "dense", "dense"}).Draw(t, "shape")
 	var n int
 	switch rapid.IntRange(0, 5).Draw(t, "sizeclass") {
 	case 0:
@@ -55,6 +62,22 @@ func genPts(t *rapid.T) (string, [][2]int64) {
 		side := rapid.SampledFrom([]int64{3, 3, 4, 5, 8, 16}).Draw(t, "side")
 		for i := 0; i < n; i++ {
 			pts = append(pts, [2]int64{offx + rapid.Int64Range(0, side-1).Draw(t, "x"), offy + rapid.Int64Range(0, side-1).Draw(t, "y")})
+		}
+	case "dense":
+		// more than 50 distinct points with small coordinates: the reduction path on
+		// inputs where ordinates of different dimensions easily coincide
+		a := rapid.Int64Range(5, 9).Draw(t, "a")
+		b := rapid.Int64Range(7, 40).Draw(t, "b")
+		if n < 60 {
+			n = 60 + n
+		}
+		offx, offy = 0, 0
+		for i := 0; i < n; i++ {
+			x, y := rapid.Int64Range(0, a).Draw(t, "x"), rapid.Int64Range(0, b).Draw(t, "y")
+			if rapid.Bool().Draw(t, "swapxy") && i == 0 {
+				a, b = b, a
+			}
+			pts = append(pts, [2]int64{x, y})
 		}
 	case "uniform":
 		k := uint(rapid.IntRange(2, 20).Draw(t, "k"))
@@ -136,6 +159,7 @@ func genCase(t *rapid.T) Case {
 		Layout: int(rapid.SampledFrom(layouts).Draw(t, "layout")),
 		Via:    rapid.SampledFrom([]string{"flat", "flat", "multipoint", "linestring", "polygon"}).Draw(t, "via"),
 		Pts:    pts,
+		Extra:  rapid.SampledFrom([]string{"", "", "const:0", "const:1", "const:3", "const:5", "x", "y", "mix"}).Draw(t, "extra"),
 	}
 }
 
@@ -188,8 +212,20 @@ func flatOf(c Case) []float64 {
 	for i, p := range c.Pts {
 		flat = append(flat, float64(p[0]), float64(p[1]))
 		for d := 2; d < stride; d++ {
-			// distinct extra ordinates per input point: provenance is observable
-			flat = append(flat, float64(1000*d+i)+0.5)
+			switch {
+			case strings.HasPrefix(c.Extra, "const:"):
+				k, _ := strconv.Atoi(strings.TrimPrefix(c.Extra, "const:"))
+				flat = append(flat, float64(k))
+			case c.Extra == "x":
+				flat = append(flat, float64(p[d%2]))
+			case c.Extra == "y":
+				flat = append(flat, float64(p[(d+1)%2]))
+			case c.Extra == "mix":
+				flat = append(flat, float64((i*7+d*3)%9))
+			default:
+				// distinct extra ordinates per input point: provenance is observable
+				flat = append(flat, float64(1000*d+i)+0.5)
+			}
 		}
 	}
 	return flat
